@@ -22,6 +22,7 @@ fn lgs(i: u32, v: &str) -> String { LOG.with(|l| l.borrow_mut().push(i)); v.to_s
 fn take() -> Vec<u32> { LOG.with(|l| std::mem::take(&mut *l.borrow_mut())) }
 fn len_of<T, N: ArrayLength>(_: &GenericArray<T, N>) -> usize { N::USIZE }
 static mut BAD: u32 = 0;
+static mut CUR: u32 = 0;
 fn fail(id: u32, what: &str) { println!("FAIL {} {}", id, what); unsafe { BAD += 1 }; }
 fn ordered(k: usize) -> Vec<u32> { (0..k as u32).collect() }
 static mut COUNTER: u32 = 100;
@@ -136,8 +137,10 @@ def program(items):
         lines.append(code)
         ln += n
     lines.append("fn main() {")
+    lines.append('    std::panic::set_hook(Box::new(|info| { println!("FAIL {} panicked: {}", unsafe { CUR }, info.to_string().replace(\'\\n\', " ")); }));')
     for (i, *_r) in items:
-        lines.append(f"    item_{i}();")
+        lines.append(f"    unsafe {{ CUR = {i}; }}")
+        lines.append(f"    if std::panic::catch_unwind(|| item_{i}()).is_err() {{ unsafe {{ BAD += 1 }}; }}")
     lines.append('    println!("DONE bad={}", unsafe { BAD });\n}')
     return "\n".join(lines) + "\n", spans
 
